@@ -71,7 +71,8 @@ def check_pair(Gl, Gr, ms, label):
         fail("reduce:improper-result", "reduction returns an improper rotation", rep)
     inside = red < region
     again = red.map_into_symmetry_reduced_zone()
-    cases.append({"Gl": Gl.data.reshape(-1, 4).tolist(), "Gr": Gr.data.reshape(-1, 4).tolist(),
+    # the loop runs over the PROPER operations of both groups (after repair of the -4 defect)
+    cases.append({"Gl": proper_elems(Gl).tolist(), "Gr": proper_elems(Gr).tolist(),
                   "N": region.data.reshape(-1, 4).tolist(), "m": ms.tolist(), "out": red.data.reshape(-1, 4).tolist(),
                   "inside_in": (M < region).reshape(-1).astype(int).tolist(), "pair": [Gl.name, Gr.name]})
     for k in range(len(ms)):
